@@ -80,13 +80,20 @@ def run_cases(cases, res, stratum):
 def run_array_cases(cases, res, stratum):
     """x holds an array of codes, y is a scalar object of the same word length or an integer mask: element-wise patterns"""
     fx = lib.impl(); import numpy as np
+    mreqs = []; mpend = []
     for c in cases:
         s, n, nf = c['x']; mask = (1 << n) - 1
         try:
             x = fx.Fxp(list(c['cxs']), s, n, nf, raw=True)
             if c.get('x0d'): x = A.mk(fx, np, s, n, nf, c['cxs'][0])              # (a scalar object against an array object: the result has the array's shape)
+            tr = c.get('layout') == 'T' and 'cys' in c and not c.get('x0d')
+            if tr:
+                # 2-D operands that are not C-contiguous (transposed views): elements are paired by position, not by memory order
+                m = len(c['cxs']) // 2
+                x = fx.Fxp(np.array(list(c['cxs']), dtype=object if n >= 64 else None).reshape(2, m), s, n, nf, raw=True).T
             if c['y'] is not None and 'cys' in c:
                 sy, ny, nfy = c['y']; y = fx.Fxp(list(c['cys']), sy, ny, nfy, raw=True)      # y holds an array of codes too: paired element by element
+                if tr: y = fx.Fxp(np.array(list(c['cys']), dtype=object if ny >= 64 else None).reshape(2, m), sy, ny, nfy, raw=True).T
             elif c['y'] is not None:
                 sy, ny, nfy = c['y']; y = A.mk(fx, np, sy, ny, nfy, c['cy'])
             else: y = c['cy']
@@ -97,8 +104,12 @@ def run_array_cases(cases, res, stratum):
             obs['~~'] = lib.codes_of(~(~x)); obs['x_after'] = lib.codes_of(x)
         except Exception as e:
             res.fail(c, 'C13: a bitwise operator on an array of codes raised %s' % lib.exc_name(e), got=str(e)[:200]); continue
-        uy = c['cy'] & mask; uxs = [cx & mask for cx in c['cxs']]
-        uys = [cy & mask for cy in c['cys']] if 'cys' in c else [uy] * len(uxs)
+        cxs_, cys_ = list(c['cxs']), list(c.get('cys', []))
+        if c.get('layout') == 'T' and 'cys' in c and not c.get('x0d'):
+            m = len(cxs_) // 2; perm = [i * m + j for j in range(m) for i in range(2)]      # C-order positions of the transposed arrays
+            cxs_ = [cxs_[k] for k in perm]; cys_ = [cys_[k] for k in perm]
+        uy = c['cy'] & mask; uxs = [cx & mask for cx in cxs_]
+        uys = [cy & mask for cy in cys_] if 'cys' in c else [uy] * len(uxs)
         if c.get('x0d'): uxs = uxs[:1] * len(uys)
         res.count(stratum, key=repr(c), nontrivial=any(u not in (0, mask) for u in uxs) and any(u not in (0, mask) for u in uys), n=4 * len(uxs))
         res.sample(c)
@@ -109,11 +120,22 @@ def run_array_cases(cases, res, stratum):
             if f != (s, n, nf) or codes != wc or st != (False, False):
                 res.fail(c, 'C13: result of %s on an array is not, element by element, the bitwise pattern in x\'s format' % k, expected={'fmt': (s, n, nf), 'codes': wc}, got=(f, codes, st)); bad = True; break
         if bad: continue
-        if 'cys' in c and (dm[0] != dm[1] or dm[2] != list(c['cys'])):
+        if 'cys' in c and (dm[0] != dm[1] or dm[2] != (cys_ if cys_ else list(c['cys']))):
             res.fail(c, 'C13: De Morgan law violated on arrays (or the second operand was modified)', expected=dm[0], got=dm[1:]); continue
-        if c.get('x0d'): continue
-        if obs['~~'] != list(c['cxs']) or obs['x_after'] != list(c['cxs']):
-            res.fail(c, 'C13: ~~x differs from x on an array (or the operand was modified)', expected=c['cxs'], got=(obs['~~'], obs['x_after']))
+        if not c.get('x0d') and (obs['~~'] != cxs_ or obs['x_after'] != cxs_):
+            res.fail(c, 'C13: ~~x differs from x on an array (or the operand was modified)', expected=cxs_, got=(obs['~~'], obs['x_after'])); continue
+        # the array model (Bitwise.fxp_bitwise_arr / fxp_invert_arr, theorems C13_arrays_*): same codes, no flag
+        mx = cxs_[:1] if c.get('x0d') else cxs_; my = cys_ if 'cys' in c else [c['cy']]
+        for bi, k in enumerate(('&', '|', '^', '~')):
+            mreqs.append([61, bi] + e_fmt(s, n, nf) + lib.e_list(mx) + [1 if c['y'] is not None else 0, n] + lib.e_list(my) + [0, 0])
+        mpend.append((c, obs))
+    mouts = model_call(mreqs)
+    for i, (c, obs) in enumerate(mpend):
+        for bi, k in enumerate(('&', '|', '^', '~')):
+            mo = S.read_model_store(mouts[4 * i + bi])
+            if k == '~' and c.get('x0d'): continue
+            if mo['kind'] != 'ok' or mo['codes'] != obs[k][1] or mo['status'][:2] != obs[k][2]:
+                res.fail(c, 'model Bitwise (arrays) disagrees with the implementation although the bit-level oracle agrees (%s)' % k, expected=str(mo)[:200], got=obs[k][1:]); res.failures[-1]['no_input'] = True; break
 
 def gen_y(rng, n, small_codes=None):
     k = rng.random()
@@ -160,6 +182,10 @@ def shard(shard, nshards, rng, tier, extra):
             x0d = rng.random() < 0.25
             cases[-1]['cys'] = [rng.choice([ly, hy, 0, rng.randint(ly, hy), rng.randint(ly, hy)]) for _k in range(len(cxs) if not x0d else rng.randint(1, 4))]
             if x0d: cases[-1]['x0d'] = True; cases[-1]['cxs'] = cxs[:1]
+            elif rng.random() < 0.4:
+                k = rng.choice([4, 6]); cases[-1]['layout'] = 'T'
+                cases[-1]['cxs'] = [rng.choice([lo, hi, 0, -1 if s else 1, rng.randint(lo, hi), rng.randint(lo, hi)]) for _k in range(k)]
+                cases[-1]['cys'] = [rng.choice([ly, hy, 0, rng.randint(ly, hy), rng.randint(ly, hy)]) for _k in range(k)]
     run_array_cases(cases, res, 'R:arrays-of-codes')
     cases = []
     for _ in range((300 if tier == 'quick' else 5000) // nshards):
